@@ -4,6 +4,7 @@
   the well-formedness predicates.  Property theorems are in Acra/Props.
 -/
 import Acra.Model.Net
+import Acra.Lemmas.Sum16
 namespace Acra.Lemmas.Net
 open Acra.Py Acra.Model.Net Acra.Gen.Net
 
@@ -289,5 +290,270 @@ theorem Eth_unpack_frame (s t : Eth) (fcs : Bool) (h : Eth_WF s) :
     cases fcs
     · simp [e4]
     · simp only [if_true, e1, e2, e3, hcrc, ne_eq, not_true_eq_false, if_false]
+
+/-! ### ip_calc_checksum -/
+open Acra.Lemmas.Sum16 in
+theorem codesSize_replicate_u16 (n : Nat) : codesSize (List.replicate n Code.u16) = 2 * n := by
+  induction n with
+  | zero => rfl
+  | succ n ih => simp only [List.replicate_succ, codesSize, Code.size, ih]; omega
+
+open Acra.Lemmas.Sum16 in
+theorem unpackCodes_u16_le : ∀ (n : Nat) (bs : Bytes), bs.length = 2 * n →
+    unpackCodes false (List.replicate n Code.u16) bs = wordsLE bs
+  | 0, bs, h => by
+    have : bs = [] := List.eq_nil_of_length_eq_zero (by omega)
+    subst this; rfl
+  | n + 1, [], h => by simp at h
+  | n + 1, [a], h => by simp at h; omega
+  | n + 1, a :: b :: rest, h => by
+    have ih := unpackCodes_u16_le n rest (by simp at h; omega)
+    simp only [List.replicate_succ, unpackCodes, Code.size, List.take_succ_cons, List.take_zero, List.drop_succ_cons,
+      List.drop_zero, ih, wordsLE, decInt, leNat]
+    simp
+
+open Acra.Lemmas.Sum16 in
+theorem wordsLE_pad : ∀ (bs : Bytes), bs.length % 2 = 1 → wordsLE (bs ++ [0]) = wordsLE bs
+  | [], h => by simp at h
+  | [a], _ => by simp [wordsLE]
+  | a :: b :: rest, h => by
+    have ih := wordsLE_pad rest (by simp at h; omega)
+    simp only [List.cons_append, wordsLE, ih]
+
+open Acra.Lemmas.Sum16 in
+/-- `ip_calc_checksum` never fails and computes the folded, complemented little-endian word sum -/
+theorem ipCalcChecksum_eq (pkt : Bytes) :
+    ipCalcChecksum pkt = .ok (65535 - sumFold (wordsLE pkt).sum) := by
+  unfold ipCalcChecksum
+  by_cases hodd : pkt.length % 2 = 1
+  · have hl : (pkt ++ [0]).length = 2 * ((pkt ++ [0]).length / 2) := by simp; omega
+    simp only [hodd, beq_self_eq_true, if_true, structUnpack, ipcs_fmt0, Fmt.size, codesSize_replicate_u16]
+    rw [if_pos hl, unpackCodes_u16_le _ _ hl, wordsLE_pad _ hodd]
+    simp only [shr16, and_mask16, sumFold]
+  · have hl : pkt.length = 2 * (pkt.length / 2) := by omega
+    have hb : (pkt.length % 2 == 1) = false := by simp; omega
+    simp only [hb, Bool.false_eq_true, if_false, structUnpack, ipcs_fmt0, Fmt.size, codesSize_replicate_u16]
+    rw [if_pos hl, unpackCodes_u16_le _ _ hl]
+    simp only [shr16, and_mask16, sumFold]
+
+/-! ### IP: closed form of the decoder on buffers holding the 20-byte header -/
+
+theorem take_eq_slice0 (buf : Bytes) (n : Nat) : List.take n buf = slice buf 0 n := by simp [slice]
+
+theorem slice_drop (buf : Bytes) (n lo hi : Nat) : slice (List.drop n buf) lo hi = slice buf (n + lo) (n + hi) := by
+  simp [slice, List.take_drop, List.drop_drop]
+
+theorem IP_unpack_eq (t : IP) (buf : Bytes) (h : 20 ≤ buf.length) :
+    IP.unpack t buf =
+      ({ t with dscp := fld buf 1 2, len := fld buf 2 4, ident := fld buf 4 6, ttl := fld buf 8 9,
+                protocol := fld buf 9 10,
+                fragment_offset := (fld buf 6 7 % 32 * 256 + fld buf 7 8) * 8,
+                flags := fld buf 6 7 / 32, version := fld buf 0 1 / 16, ihl := fld buf 0 1 % 16,
+                srcip := some (fld buf 12 16), dstip := some (fld buf 16 20),
+                payload := slice buf 20 (fld buf 2 4) }, .ok ()) := by
+  have h1 : ¬ buf.length < 20 := by omega
+  simp only [IP.unpack, IP_HEADER_SIZE, h1, if_false, structUnpackFrom, IP_HEADER_FORMAT, Fmt.size, codesSize, Code.size,
+    Nat.zero_add, h, if_true, List.drop_zero, unpackCodes, List.drop_drop, decInt,
+    take_eq_slice0, slice_drop, Nat.reduceAdd, and_mask5, and_mask4, shl8, shr5, shr4, fld]
+
+/-! ### IP: the bytes `pack` emits, and what `unpack` makes of them -/
+
+/-- every field fits the width the IPv4 header allots: 3 flag bits, a 13-bit offset in 8-byte units,
+    a 16-bit total length -/
+def IP_WF (s : IP) (src dst : Nat) : Prop :=
+  s.srcip = some src ∧ s.dstip = some dst ∧ src < 2 ^ 32 ∧ dst < 2 ^ 32 ∧
+  s.dscp < 256 ∧ s.ident < 65536 ∧ s.ttl < 256 ∧ s.protocol < 256 ∧ s.flags < 8 ∧
+  s.fragment_offset % 8 = 0 ∧ s.fragment_offset < 65536 ∧ 20 + s.payload.length < 65536
+
+/-- header bytes 0..9 -/
+def ipFront (s : IP) : Bytes :=
+  encInt true 1 0x45 ++ (encInt true 1 s.dscp ++ (encInt true 2 (20 + s.payload.length) ++ (encInt true 2 s.ident ++
+    (encInt true 1 (s.flags * 32 + s.fragment_offset / 8 / 256) ++ (encInt true 1 (s.fragment_offset / 8 % 256) ++
+    (encInt true 1 s.ttl ++ encInt true 1 s.protocol))))))
+
+/-- header bytes 12..19 -/
+def ipBack (src dst : Nat) : Bytes := encInt true 4 src ++ encInt true 4 dst
+
+/-- the 20-byte header with the two checksum bytes `c` -/
+def ipHeader (s : IP) (c : Bytes) (src dst : Nat) : Bytes := ipFront s ++ (c ++ ipBack src dst)
+
+@[simp] theorem ipFront_length (s : IP) : (ipFront s).length = 10 := by simp [ipFront]
+@[simp] theorem ipBack_length (a b : Nat) : (ipBack a b).length = 8 := by simp [ipBack]
+theorem ipHeader_length (s : IP) (c : Bytes) (a b : Nat) (h : c.length = 2) : (ipHeader s c a b).length = 20 := by
+  simp [ipHeader, h]
+
+/-- the value `ip_calc_checksum` returns for the header with a zero checksum field -/
+def ipCksum (s : IP) (src dst : Nat) : Nat :=
+  65535 - Sum16.sumFold (Sum16.wordsLE (ipHeader s [0, 0] src dst)).sum
+
+theorem encInt_be2_zero : encInt true 2 0 = [0, 0] := by decide
+
+theorem sumFold_lt (x : Nat) : Sum16.sumFold x < 65536 := by unfold Sum16.sumFold; omega
+
+theorem IP_pack_eq (s : IP) (src dst : Nat) (h : IP_WF s src dst) :
+    IP.pack s = ({ s with len := 20 + s.payload.length },
+                 .ok (ipHeader s (leBytes 2 (ipCksum s src dst)) src dst ++ s.payload)) := by
+  obtain ⟨hs, hd, h1, h2, h3, h4, h5, h6, h7, h8, h9, h10⟩ := h
+  have hfb : ((s.flags &&& 0x7) <<< 5) ||| ((s.fragment_offset / 8) >>> 8 &&& 0x1F) =
+      s.flags * 32 + s.fragment_offset / 8 / 256 := by
+    rw [and_mask3, and_mask5, shr8, shl5_or _ _ (by omega)]
+    have : s.flags % 8 = s.flags := by omega
+    have : s.fragment_offset / 8 / 256 % 32 = s.fragment_offset / 8 / 256 := by omega
+    omega
+  have hf : Fits IP_HEADER_FORMAT.codes [0x45, s.dscp, (20 + s.payload.length) % 65536, s.ident,
+      s.flags * 32 + s.fragment_offset / 8 / 256, s.fragment_offset / 8 % 256, s.ttl, s.protocol, 0, src, dst] := by
+    simp [Fits, IP_HEADER_FORMAT, Code.bound]; omega
+  have hh : encCodes IP_HEADER_FORMAT.big IP_HEADER_FORMAT.codes [0x45, s.dscp, (20 + s.payload.length) % 65536, s.ident,
+      s.flags * 32 + s.fragment_offset / 8 / 256, s.fragment_offset / 8 % 256, s.ttl, s.protocol, 0, src, dst] =
+      ipHeader s [0, 0] src dst := by
+    have : (20 + s.payload.length) % 65536 = 20 + s.payload.length := by omega
+    rw [this]
+    simp [IP_HEADER_FORMAT, encCodes, Code.size, ipHeader, ipFront, ipBack, encInt_be2_zero]
+  have hc : Fits IP_pack_fmt2.codes [65535 - Sum16.sumFold (Sum16.wordsLE (ipHeader s [0, 0] src dst)).sum] := by
+    simp [Fits, IP_pack_fmt2, Code.bound]; omega
+  have ht : List.take 10 (ipHeader s [0, 0] src dst) = ipFront s := by
+    simp only [ipHeader]; exact take_append_len _ _ _ (by simp)
+  have hdr : List.drop 12 (ipHeader s [0, 0] src dst) = ipBack src dst := by
+    simp only [ipHeader, ← List.append_assoc]; exact drop_append_len _ _ _ (by simp)
+  simp only [IP.pack, hs, hd, IP_HEADER_SIZE, and_mask8, hfb, structPack_eq _ _ hf, hh, ipCalcChecksum_eq,
+    structPack_eq _ _ hc, ht, hdr]
+  simp [IP_pack_fmt2, encCodes, Code.size, encInt, ipHeader, ipCksum]
+
+/-- decoding what `pack` emitted — with any two checksum bytes and any trailing bytes (link-layer padding)
+    after the datagram — gives the fields back; version and IHL read 4 and 5 -/
+theorem IP_unpack_packed (s t : IP) (src dst : Nat) (c pad : Bytes) (hc : c.length = 2) (h : IP_WF s src dst) :
+    IP.unpack t (ipHeader s c src dst ++ (s.payload ++ pad)) =
+      ({ s with len := 20 + s.payload.length, version := 4, ihl := 5 }, .ok ()) := by
+  obtain ⟨hs, hd, h1, h2, h3, h4, h5, h6, h7, h8, h9, h10⟩ := h
+  have hlen : (ipHeader s c src dst).length = 20 := ipHeader_length s c src dst hc
+  rw [IP_unpack_eq _ _ (by simp [hlen])]
+  have e0 : fld (ipHeader s c src dst ++ (s.payload ++ pad)) 0 1 = 0x45 := by
+    simp [fld, ipHeader, ipFront, slice_prefix, encInt, beNat_beBytes_of_lt 1 69 (by omega)]
+  have e1 : fld (ipHeader s c src dst ++ (s.payload ++ pad)) 1 2 = s.dscp := by
+    simp [fld, ipHeader, ipFront, slice_skip, slice_prefix, encInt, beNat_beBytes_of_lt 1 _ (show s.dscp < 256 ^ 1 by omega)]
+  have e2 : fld (ipHeader s c src dst ++ (s.payload ++ pad)) 2 4 = 20 + s.payload.length := by
+    simp [fld, ipHeader, ipFront, slice_skip, slice_prefix, encInt,
+      beNat_beBytes_of_lt 2 _ (show 20 + s.payload.length < 256 ^ 2 by omega)]
+  have e4 : fld (ipHeader s c src dst ++ (s.payload ++ pad)) 4 6 = s.ident := by
+    simp [fld, ipHeader, ipFront, slice_skip, slice_prefix, encInt, beNat_beBytes_of_lt 2 _ (show s.ident < 256 ^ 2 by omega)]
+  have e6 : fld (ipHeader s c src dst ++ (s.payload ++ pad)) 6 7 = s.flags * 32 + s.fragment_offset / 8 / 256 := by
+    simp [fld, ipHeader, ipFront, slice_skip, slice_prefix, encInt,
+      beNat_beBytes_of_lt 1 _ (show s.flags * 32 + s.fragment_offset / 8 / 256 < 256 ^ 1 by omega)]
+  have e7 : fld (ipHeader s c src dst ++ (s.payload ++ pad)) 7 8 = s.fragment_offset / 8 % 256 := by
+    simp [fld, ipHeader, ipFront, slice_skip, slice_prefix, encInt,
+      beNat_beBytes_of_lt 1 _ (show s.fragment_offset / 8 % 256 < 256 ^ 1 by omega)]
+  have e8 : fld (ipHeader s c src dst ++ (s.payload ++ pad)) 8 9 = s.ttl := by
+    simp [fld, ipHeader, ipFront, slice_skip, slice_prefix, encInt, beNat_beBytes_of_lt 1 _ (show s.ttl < 256 ^ 1 by omega)]
+  have e9 : fld (ipHeader s c src dst ++ (s.payload ++ pad)) 9 10 = s.protocol := by
+    simp [fld, ipHeader, ipFront, slice_skip, slice_prefix, encInt, beNat_beBytes_of_lt 1 _ (show s.protocol < 256 ^ 1 by omega)]
+  have e12 : fld (ipHeader s c src dst ++ (s.payload ++ pad)) 12 16 = src := by
+    simp [fld, ipHeader, ipFront, ipBack, slice_skip, slice_prefix, hc, encInt, beNat_beBytes_of_lt 4 _ (show src < 256 ^ 4 by omega)]
+  have e16 : fld (ipHeader s c src dst ++ (s.payload ++ pad)) 16 20 = dst := by
+    simp [fld, ipHeader, ipFront, ipBack, slice_skip, slice_prefix, hc, encInt, beNat_beBytes_of_lt 4 _ (show dst < 256 ^ 4 by omega)]
+  have ep : slice (ipHeader s c src dst ++ (s.payload ++ pad)) 20 (20 + s.payload.length) = s.payload :=
+    slice_mid _ _ _ _ _ hlen.symm (by rw [hlen])
+  simp only [e0, e1, e2, e4, e6, e7, e8, e9, e12, e16, ep]
+  have a1 : (s.flags * 32 + s.fragment_offset / 8 / 256) / 32 = s.flags := by omega
+  have a2 : ((s.flags * 32 + s.fragment_offset / 8 / 256) % 32 * 256 + s.fragment_offset / 8 % 256) * 8 = s.fragment_offset := by omega
+  rw [a1, a2]
+  simp [hs, hd]
+
+/-! ### IP: re-encoding a decoded wire header -/
+
+theorem slice_cat (b : List α) (i j k : Nat) (hij : i ≤ j) (hjk : j ≤ k) : slice b i j ++ slice b j k = slice b i k := by
+  simp only [slice]
+  have e : List.take j b = List.take j (List.take k b) := by rw [List.take_take, Nat.min_eq_left hjk]
+  rw [e]
+  generalize List.take k b = c
+  by_cases hh : j ≤ c.length
+  · have hl : i ≤ (List.take j c).length := by simp; omega
+    rw [← List.drop_append_of_le_length hl, List.take_append_drop]
+  · rw [List.take_of_length_le (show c.length ≤ j by omega), List.drop_eq_nil_of_le (show c.length ≤ j by omega)]; simp
+
+theorem encInt_fld (h : Bytes) (a b k : Nat) (hl : (slice h a b).length = k) : encInt true k (fld h a b) = slice h a b := by
+  have := encInt_decInt true (slice h a b)
+  rw [hl] at this
+  simpa [decInt, fld] using this
+
+theorem fld_lt (h : Bytes) (a b : Nat) : fld h a b < 256 ^ (min b h.length - a) := by
+  have := beNat_lt (slice h a b)
+  simpa [fld] using this
+
+/-- the checksum field of a 20-byte header is the RFC 1071 checksum of the header with that field zeroed -/
+def ipChecksumValid (h : Bytes) : Prop :=
+  slice h 10 12 = beBytes 2 (Spec.rfc1071 (List.take 10 h ++ ([0, 0] ++ List.drop 12 h)))
+
+/-- what decoding the wire header `h` (followed by payload `p`) leaves in the object -/
+def ipFromWire (t : IP) (h p : Bytes) : IP :=
+  { t with dscp := fld h 1 2, len := fld h 2 4, ident := fld h 4 6, ttl := fld h 8 9,
+           protocol := fld h 9 10,
+           fragment_offset := (fld h 6 7 % 32 * 256 + fld h 7 8) * 8,
+           flags := fld h 6 7 / 32, version := fld h 0 1 / 16, ihl := fld h 0 1 % 16,
+           srcip := some (fld h 12 16), dstip := some (fld h 16 20),
+           payload := p }
+
+theorem IP_reencode (t : IP) (h p pad : Bytes) (hlen : h.length = 20) (h0 : fld h 0 1 = 0x45)
+    (hck : ipChecksumValid h) (htot : fld h 2 4 = 20 + p.length) :
+    (IP.pack (IP.unpack t (h ++ (p ++ pad))).1).2 = .ok (h ++ p) := by
+  have hb : ∀ a b, b ≤ 20 → fld (h ++ (p ++ pad)) a b = fld h a b := by
+    intro a b hb; simp only [fld]; rw [slice_append_left _ _ (by omega)]
+  rw [IP_unpack_eq _ _ (by simp [hlen])]
+  simp only [hb _ _ (Nat.le_refl 20), hb 1 2 (by omega), hb 2 4 (by omega), hb 4 6 (by omega), hb 8 9 (by omega),
+    hb 9 10 (by omega), hb 6 7 (by omega), hb 7 8 (by omega), hb 0 1 (by omega), hb 12 16 (by omega)]
+  have hp : slice (h ++ (p ++ pad)) 20 (fld h 2 4) = p := by
+    rw [htot]; exact slice_mid _ _ _ _ _ hlen.symm (by rw [hlen])
+  rw [hp]
+  -- bounds of the decoded fields
+  have l1 := fld_lt h 1 2
+  have l4 := fld_lt h 4 6
+  have l6 := fld_lt h 6 7
+  have l7 := fld_lt h 7 8
+  have l8 := fld_lt h 8 9
+  have l9 := fld_lt h 9 10
+  have l12 := fld_lt h 12 16
+  have l16 := fld_lt h 16 20
+  have l2 := fld_lt h 2 4
+  simp only [hlen] at l1 l4 l6 l7 l8 l9 l12 l16 l2
+  simp at l1 l4 l6 l7 l8 l9 l12 l16 l2
+  show (IP.pack (ipFromWire t h p)).2 = .ok (h ++ p)
+  generalize hq : ipFromWire t h p = q
+  unfold ipFromWire at hq
+  have hwf : IP_WF q (fld h 12 16) (fld h 16 20) := by
+    subst hq
+    refine ⟨rfl, rfl, ?_, ?_, ?_, ?_, ?_, ?_, ?_, ?_, ?_, ?_⟩ <;> (try simp only) <;> omega
+  rw [IP_pack_eq q _ _ hwf]
+  simp only
+  -- the re-encoded header is h
+  have sl : ∀ a b, a ≤ b → b ≤ 20 → (slice h a b).length = b - a := by
+    intro a b _ _; simp [hlen]; omega
+  have f0 : encInt true 1 0x45 = slice h 0 1 := by rw [← h0]; exact encInt_fld h 0 1 1 (sl 0 1 (by omega) (by omega))
+  have fe : ipFront q = slice h 0 10 := by
+    subst hq
+    have a1 : fld h 6 7 / 32 * 32 + (fld h 6 7 % 32 * 256 + fld h 7 8) * 8 / 8 / 256 = fld h 6 7 := by omega
+    have a2 : (fld h 6 7 % 32 * 256 + fld h 7 8) * 8 / 8 % 256 = fld h 7 8 := by omega
+    simp only [ipFront, a1, a2, ← htot, f0]
+    rw [encInt_fld h 1 2 1 (sl _ _ (by omega) (by omega)), encInt_fld h 2 4 2 (sl _ _ (by omega) (by omega)),
+      encInt_fld h 4 6 2 (sl _ _ (by omega) (by omega)), encInt_fld h 6 7 1 (sl _ _ (by omega) (by omega)),
+      encInt_fld h 7 8 1 (sl _ _ (by omega) (by omega)), encInt_fld h 8 9 1 (sl _ _ (by omega) (by omega)),
+      encInt_fld h 9 10 1 (sl _ _ (by omega) (by omega))]
+    rw [slice_cat h 8 9 10 (by omega) (by omega), slice_cat h 7 8 10 (by omega) (by omega),
+      slice_cat h 6 7 10 (by omega) (by omega), slice_cat h 4 6 10 (by omega) (by omega),
+      slice_cat h 2 4 10 (by omega) (by omega), slice_cat h 1 2 10 (by omega) (by omega),
+      slice_cat h 0 1 10 (by omega) (by omega)]
+  have be : ipBack (fld h 12 16) (fld h 16 20) = slice h 12 20 := by
+    simp only [ipBack]
+    rw [encInt_fld h 12 16 4 (sl _ _ (by omega) (by omega)), encInt_fld h 16 20 4 (sl _ _ (by omega) (by omega)),
+      slice_cat h 12 16 20 (by omega) (by omega)]
+  have t10 : List.take 10 h = slice h 0 10 := by simp [slice]
+  have d12 : List.drop 12 h = slice h 12 20 := by simp [slice, List.take_of_length_le (show h.length ≤ 20 by omega)]
+  have hc : leBytes 2 (ipCksum q (fld h 12 16) (fld h 16 20)) = slice h 10 12 := by
+    rw [hck, t10, d12]
+    simp only [ipCksum, ipHeader, fe, be]
+    rw [Sum16.stored_bytes_eq _ (by simp [hlen])]
+  have hpl : q.payload = p := by subst hq; rfl
+  rw [hc, hpl]
+  simp only [ipHeader, fe, be]
+  rw [slice_cat h 10 12 20 (by omega) (by omega), slice_cat h 0 10 20 (by omega) (by omega)]
+  simp [slice, List.take_of_length_le (show h.length ≤ 20 by omega)]
 
 end Acra.Lemmas.Net
